@@ -9,10 +9,10 @@ CONSTANTS
  DevRateNonMonotone = FALSE
  DevNoTruncOnQuery = FALSE
  DevNoCap = FALSE
- DevHealthNotChecked <- OnlyProduce
+ DevHealthNotChecked <- None
  DevDegradedPasses = FALSE
  DevGateHoisted = FALSE
- DevIgnoreCtxErrors = FALSE
+ DevIgnoreCtxErrors = TRUE
 INIT Init
 NEXT Next
 INVARIANTS C25_FunctionOfWindow C25_Monotone C25_Gate
